@@ -199,6 +199,53 @@ Verdict(ctx, m) ==
                 THEN "ok" ELSE "err"
 
 \* ------------------------------------------------------------------------
+\* Which diagnostic wins (not fixed by any property; recorded as *drift* only).
+\* Classes: "unsupported" (unknown trait), "unused" (trait not educed),
+\* "place" (the attribute cannot be placed here: nothing at all is accepted),
+\* "format" (incorrect format, with a usage hint), "reset" (parameter given
+\* twice), "syn" (a value or the parameter list does not parse),
+\* "union" (unsafe missing / trait not available for unions).
+\* ------------------------------------------------------------------------
+NothingAccepted(tab) == ~tab.path /\ tab.nv = "" /\ DOMAIN tab.params = {} /\ tab.unsafe = "no"
+FmtClass(tab) == IF NothingAccepted(tab) THEN "place" ELSE "format"
+
+RECURSIVE FirstParamError(_, _, _, _)
+FirstParamError(tab, ps, i, seen) ==
+  IF i > Len(ps) THEN "none"
+  ELSE LET p == ps[i] IN
+    IF Canon(p.name) \notin DOMAIN tab.params THEN FmtClass(tab)
+    ELSE IF ~Acc(tab.params[Canon(p.name)], p.form, p.val) THEN "syn"
+    ELSE IF Canon(p.name) \in seen THEN "reset"
+    ELSE FirstParamError(tab, ps, i + 1, seen \cup {Canon(p.name)})
+
+\* `unsafe` where it is not understood is read as an unknown parameter at its position
+UnsafeParam == [name |-> "unsafe", form |-> "path", val |-> NoVal]
+EffParams(tab, m) ==
+  IF m.uns = "first" /\ tab.unsafe = "no" THEN <<UnsafeParam>> \o m.params
+  ELSE IF m.uns = "later" THEN <<m.params[1], UnsafeParam>> \o Tail(m.params)
+  ELSE m.params
+
+ErrClass(ctx, m) ==
+  IF m.form = "nv" /\ ~NvParses(m.val) THEN "syn"                    \* the whole #[educe(..)] list does not parse
+  ELSE IF m.t \notin AllTraits THEN "unsupported"
+  ELSE IF ctx.pos # "type" /\ m.t \notin ctx.educed THEN "unused"
+  ELSE IF m.t = "Into" THEN "other"
+  ELSE IF ctx.pos = "type" /\ ctx.kind = "union" /\ m.t \in {"PartialOrd", "Ord", "Deref", "DerefMut"} THEN "union"
+  ELSE LET tab == Table(ctx, m.t) IN
+    CASE m.form = "path" -> IF tab.unsafe = "req" THEN "union" ELSE FmtClass(tab)
+      [] m.form = "nv" ->
+           IF ctx.pos = "type" /\ ctx.kind = "union" /\ m.t = "Debug"
+           THEN (IF AccIdent("nv", m.val) THEN "union" ELSE "syn")       \* the name is read before `unsafe` is missed
+           ELSE IF tab.nv = "" THEN FmtClass(tab) ELSE "syn"
+      [] OTHER ->
+           IF NothingAccepted(tab) /\ ~tab.empty THEN "place"            \* refused before the list is even parsed
+           ELSE IF \E i \in DOMAIN m.params : m.params[i].form = "nv" /\ ~NvParses(m.params[i].val) THEN "syn"
+           ELSE LET ps == EffParams(tab, m)
+                    e == FirstParamError(tab, ps, 1, {}) IN
+                  IF ps = <<>> THEN (IF m.uns = "no" /\ tab.unsafe = "req" THEN "union" ELSE FmtClass(tab))
+                  ELSE IF e = "none" /\ m.uns = "no" /\ tab.unsafe = "req" THEN "union" ELSE e
+
+\* ------------------------------------------------------------------------
 \* the scanner as a step machine (the handler closure with its *_is_set flags)
 \* st = [i, set, verdict]
 \* ------------------------------------------------------------------------
